@@ -76,6 +76,14 @@ class SimWorldSimulation(Simulation):
         self.sched_log.append(tuple(oname(a) for a in agents))
         CTX.log.append((t, "schedule", ",".join(oname(a) for a in agents)))
         fault("schedule")
+        # the documented return type is "an iterable which is a permutation of self.agents":
+        # hand it over as a list, a tuple or a one-shot iterator (decided by the schedule code,
+        # so that it replays and shrinks with it)
+        kind = (sum(sched[t]) % 3) if t < len(sched) and sched[t] else 0
+        if kind == 1:
+            return tuple(agents)
+        if kind == 2:
+            return iter(agents)
         return agents
 
     def actionsAreCompatible(self, agent, actions):
